@@ -15,6 +15,8 @@ _CUT_HEAP_STRINGS = ['_ZNSt7__cxx1112basic_stringIcSt11char_traitsIcESaIcEE9_M_c
 _CUT_VEC_REALLOC = ['_ZNSt6vectorINSt7__cxx1112basic_stringIcSt11char_traitsIcESaIcEEESaIS5_EE17_M_realloc_insertIJS5_EEEvN9__gnu_cxx17__normal_iteratorIPS5_S7_EEDpOT_',
                     '_ZNSt6vectorIN11CPPManifest13ExpansionNodeESaIS1_EE17_M_realloc_insertIJS1_EEEvN9__gnu_cxx17__normal_iteratorIPS1_S3_EEDpOT_']
 _SE = '_ZN11CPPManifest14save_expansionERSt6vectorINS_13ExpansionNodeESaIS1_EERKNSt7__cxx1112basic_stringIcSt11char_traitsIcESaIcEEERKS0_ISA_SaISA_EE'
+_REXP = '_ZNK11CPPManifest8r_expandERKSt6vectorINS_13ExpansionNodeESaIS1_EERKS0_INSt7__cxx1112basic_stringIcSt11char_traitsIcESaIcEEESaISB_EEbRKSt13unordered_setIPKS_St4hashISI_ESt8equal_toISI_ESaISI_EE'
+_EXPM = '_ZNK15CPPPreprocessor16expand_manifestsERNSt7__cxx1112basic_stringIcSt11char_traitsIcESaIcEEEbRKSt13unordered_setIPK11CPPManifestSt4hashISA_ESt8equal_toISA_ESaISA_EE'
 # "__VA_ARGS__" / "__VA_OPT__" are compared against every identifier: concrete 11-byte strlen/memcmp
 _KW_LOOPS = {'ll_strlen.0': 14, 'll_memcmp.0': 14}
 
@@ -52,6 +54,53 @@ HARNESSES = [
   'oracle': 'no crash, no memory-safety failure, bounded termination',
   'bounds': {'quick': {'defs': {'LMAX': 4}, 'unwind': 6, 'cap': 600},
              'thorough': {'defs': {'LMAX': 5}, 'unwind': 7, 'cap': 3000}}},
+ {'id': 'c15_save_expansion',
+  'property': 'C15',
+  'src': 'c15_expansion.cxx',
+  'entry': 'harness_c15_save_expansion',
+  'tus': _TUS, 'skip_ctors': _SKIP, 'cut': _CUT_HEAP_STRINGS + _CUT_VEC_REALLOC + [_EXPM], 'models': ['noinline.c'], 'tuflags': _TUF, 'hflags': _GA,
+  'nonterm_is_violation': True,
+  'desc': 'CPPManifest::save_expansion on every short macro body for F(a), then expand()/r_expand with 0, 1 and 2 arguments',
+  'domain': 'every body of length 0..LMAX over {a b space # , ( )}; 0..2 one-byte arguments; expand_manifests cut to identity (no macro table)',
+  'oracle': 'no crash, no memory-safety failure, bounded termination (the __VA_OPT__ recursion of save_expansion/r_expand is not reached)',
+  'bounds': {'quick': {'defs': {'LMAX': 3}, 'unwind': 5, 'unwindset': dict(_KW_LOOPS, **{_SE: 0, _REXP: 0}), 'cap': 600},
+             'thorough': {'defs': {'LMAX': 4}, 'unwind': 6, 'unwindset': dict(_KW_LOOPS, **{_SE: 0, _REXP: 0}), 'cap': 3000}}},
+ {'id': 'c15_stringify',
+  'property': 'C15',
+  'src': 'c08_manifest.cxx',
+  'entry': 'harness_c08_stringify',
+  'tus': _TUS, 'skip_ctors': _SKIP, 'cut': _CUT_HEAP_STRINGS, 'models': ['noinline.c'], 'tuflags': _TUF, 'hflags': _GA + ['-DTOTALITY'],
+  'nonterm_is_violation': True,
+  'desc': 'CPPManifest::stringify on every short byte string over the C08 alphabet, unterminated literals included',
+  'domain': 'every text of length 0..LMAX over {a, space, ", \', \\}',
+  'oracle': 'no crash, no memory-safety failure, bounded termination; result at least the quoted length',
+  'bounds': {'quick': {'defs': {'LMAX': 5}, 'unwind': 15, 'cap': 600},
+             'thorough': {'defs': {'LMAX': 6}, 'unwind': 17, 'cap': 3000}}},
+ {'id': 'c15_extract_args',
+  'property': 'C15',
+  'src': 'c08_manifest.cxx',
+  'entry': 'harness_c08_extract_args',
+  'tus': _TUS, 'skip_ctors': _SKIP, 'cut': _CUT_HEAP_STRINGS + _CUT_VEC_REALLOC, 'models': ['noinline.c'], 'tuflags': _TUF,
+  'hflags': _GA + ['-DTOTALITY', '-DWIDE_ALPHABET'],
+  'nonterm_is_violation': True,
+  'desc': 'CPPManifest::extract_args on every short call text, followed by what its caller expand_manifests does with the returned '
+          'position (expr.substr(p), cppPreprocessor.cxx:1100)',
+  'domain': 'every text of length 0..AMAX over {( ) , " a space \' \\}, unbalanced and unterminated ones included',
+  'oracle': 'no crash (the caller\'s substr(p) must not throw), no memory-safety failure, bounded termination',
+  'bounds': {'quick': {'defs': {'AMAX': 4}, 'unwind': 6, 'cap': 600},
+             'thorough': {'defs': {'AMAX': 6}, 'unwind': 8, 'cap': 3000}}},
+ {'id': 'c15_extract_args_rest',
+  'property': 'C15',
+  'src': 'c08_manifest.cxx',
+  'entry': 'harness_c08_extract_args',
+  'tus': _TUS, 'skip_ctors': _SKIP, 'cut': _CUT_HEAP_STRINGS + _CUT_VEC_REALLOC, 'models': ['noinline.c'], 'tuflags': _TUF,
+  'hflags': _GA + ['-DTOTALITY', '-DWIDE_ALPHABET', '-DEXCLUDE_UNTERMINATED_LITERAL'],
+  'nonterm_is_violation': True,
+  'desc': 'as c15_extract_args with the known crashing class excluded (a string/char literal inside the parentheses that is never closed)',
+  'domain': 'as c15_extract_args, minus texts with an unterminated literal inside the argument list',
+  'oracle': 'as c15_extract_args',
+  'bounds': {'quick': {'defs': {'AMAX': 4}, 'unwind': 6, 'cap': 600},
+             'thorough': {'defs': {'AMAX': 6}, 'unwind': 8, 'cap': 3000}}},
 ]
 
 PROPERTY_INFO = {'C15': {'level': 'model_checking',
